@@ -54,6 +54,8 @@ def lit_node(v):
         return ("lit", v.value, v.dom)
     if v.t == "s":
         return ("str", [v.data], False)
+    if v.t == "k":
+        return ("block", v.kind, tuple(v.ids), v.body)
     if v.t == "q":
         if not v.items:
             return ("elist",)
@@ -181,10 +183,19 @@ ENUM_OPS = {
     "elem-type": [("word", "elem"), ("word", "type")],
     "elem-add": [("word", "elem"), ("lit", 1, "dec"), ("word", "add")],
     "elem-pos-hex": [("word", "elem"), ("word", "pos"), ("word", "hex")],
+    # the stack is copied (forked by an ALT, saved by a sub-expression) while the value waits below: it keeps its position
+    "elem-fork": [("word", "elem"), ("alt", [("lit", 10, "dec"), ("lit", 20, "dec")]), ("word", "drop")],
+    "elem-sub": [("word", "elem"), ("sub", True, (), ("lit", 1, "dec"))],
+    "elem-let": [("word", "elem"), ("let", ("Zz",), ("lit", 1, "dec"))],
+    "relem-infix": [("word", "relem"), ("infix", ("lit", 1, "dec"), "==", ("lit", 1, "dec"))],
 }
 ENUM_TAILS = {"pos": [("word", "pos")], "plain": [], "?1": [("word", "?1")], "!0": [("word", "!0")],
               "type-pos": [("word", "type"), ("word", "pos")]}
-STREAM_POOL = [Q([C(10), C(20, "hex"), C(30)]), Q([C(7), C(7)]), Q([]), Q([C(1)]), Q([C(1), C(2)]), Q([C(1), C(2), C(3)]), S(b""), S(b"a"), S(b"abc"), S(b"a\0b"),
+def K(n):
+    return M.VClosure(("lit", n, "dec"), {}, (), "", 0)
+
+
+STREAM_POOL = [Q([K(1), K(2), K(3)]), Q([C(1), K(2), S(b"x"), K(4)]), Q([C(10), C(20, "hex"), C(30)]), Q([C(7), C(7)]), Q([]), Q([C(1)]), Q([C(1), C(2)]), Q([C(1), C(2), C(3)]), S(b""), S(b"a"), S(b"abc"), S(b"a\0b"),
                Q([Q([C(1), C(2)]), S(b"xy")]), Q([S(b"ab"), Q([C(5)]), S(b"")])]
 
 
